@@ -37,6 +37,7 @@ DIMS = {
     'planet': [[1.0, 1.0], [0.5, 0.1], [1.7, 3.0]],
     # (0.05 solar radii: a white dwarf - a giant planet is larger than its star, the documented ratio exceeds one)
     'rstar': [1.0, 0.3, 0.05],
+    'log': ['quiet', 'debug'],
     # the last one: the deepest layers are hotter than the collision-induced-absorption tables reach (no CIA opacity
     # there, by the documented rule for CIA objects), the layers above are inside
     'T': [['iso', 1000.0], ['dec'], ['inc'], ['nonmono'], ['outside'], ['array', [800.0, 2000.0, 3700.0, 4200.0]]],
@@ -154,7 +155,11 @@ def one_run(r, case, scale, tag):
     fx.reset_caches()
     tabs, cia = install(case, scale)
     m = fx.build_model(spec_of(case, scale))
-    grid, depth, trans, _ = m.model()
+    if case.get('log') == 'debug':
+        with fx.debug_logging():        # the run as under `taurex -g`: what is computed does not depend on what is logged
+            grid, depth, trans, _ = m.model()
+    else:
+        grid, depth, trans, _ = m.model()
     tau_ref, segs, b, outer, zb, dz, Rp = reference(m, case, tabs, cia)
     N = m.nLayers
     Rs = m.star.radius
